@@ -93,7 +93,7 @@ func isGlobalLoad(v ssa.Value, pkgPath, name string) bool {
 }
 
 func checkC16(c *Ctx) {
-	c.Explanation = "Decides the structure that makes rtcmlogger a lossless tee: (R1) in the copy loop every successful read of n>0 bytes from standard input is followed, before the next read and on every path, by exactly one write of readBuffer[:n] (same buffer, same n) to standard output and then exactly one send to the recorder; the only edges that bypass them are end-of-file and n==0; (R2) what is sent to the recorder is a fresh buffer of length n filled by copy from readBuffer[:n], so the recorder never aliases the buffer that the next read overwrites; (R3) the recorder writes every block it receives, unmodified, before its next receive and leaves its loop only when the channel is closed; (R4) start closes the recorder channel and waits for the recorder goroutine before returning, on every path (join rule of C11). R1 also requires that every return of the copy loop is reached over an err == io.EOF edge on every path. (R6) the copy loop, the recorder, start and the module functions they call outside the logger package are free of index, slice, bit-read, division, shift, assertion and make panics (the arithmetic obligations of C07, discharged by linear entailment). (R7) nothing reachable from start closes standard input or output, or wraps a descriptor in a second os.File (os.NewFile: the new object's finalizer closes the descriptor at the next garbage collection), or calls syscall.Close/Dup2. (R8) the record writer is created for the configured message directory with a file-name pattern that no writer for another directory shares (two daily writers with one pattern and equal directories append to one file), and the configured directory is replaced by a default only when it is empty."
+	c.Explanation = "Decides the structure that makes rtcmlogger a lossless tee: (R1) in the copy loop every successful read of n>0 bytes from standard input is followed, before the next read and on every path, by exactly one write of readBuffer[:n] (same buffer, same n) to standard output and then exactly one send to the recorder; the only edges that bypass them are end-of-file and n==0; (R2) what is sent to the recorder is a fresh buffer of length n filled by copy from readBuffer[:n], so the recorder never aliases the buffer that the next read overwrites; (R3) the recorder writes every block it receives, unmodified, before its next receive and leaves its loop only when the channel is closed; (R4) start closes the recorder channel and waits for the recorder goroutine before returning, on every path (join rule of C11). R1 also requires that every return of the copy loop is reached over an err == io.EOF edge on every path. (R6) the copy loop, the recorder, start and the module functions they call outside the logger package are free of index, slice, bit-read, division, shift, assertion and make panics (the arithmetic obligations of C07, discharged by linear entailment). (R7) nothing reachable from start closes standard input or output, or wraps a descriptor in a second os.File (os.NewFile: the new object's finalizer closes the descriptor at the next garbage collection), calls syscall.Close/Dup2, or renames/removes files from the tee itself. (R8) the record writer is created for the configured message directory with a file-name pattern that no writer for another directory shares (two daily writers with one pattern and equal directories append to one file), and the configured directory is replaced by a default only when it is empty."
 	c.NotDecided = "dailylogger's own file handling and midnight gating (dependency); what os.File.Read/Write do; partial writes to stdout (ignored by design); a read that returns n>0 together with io.EOF (os.File never does)."
 	c.Assumptions = append(c.Assumptions, "os.File.Read returns (0, io.EOF) at end of file, never n>0 together with io.EOF", "io.Reader contract: n, err := r.Read(p) gives 0 <= n <= len(p)")
 	P := c.P
@@ -623,6 +623,9 @@ func ruleStdDescriptorsLeftAlone(c *Ctx, rule string, roots []*ssa.Function) {
 			case full == "syscall.Close" || full == "syscall.Dup2" || full == "syscall.Dup3":
 				bad++
 				c.Fail(rule, "std-descriptors("+P.FnKey(fn)+")", ins.Pos(), "refuted", full+" in the tee: a descriptor can be closed or replaced under os.Stdin/os.Stdout")
+			case (full == "os.Rename" || full == "os.Remove" || full == "os.RemoveAll" || full == "os.Truncate") && !strings.HasSuffix(fn.Pkg.Pkg.Path(), "apps/rtcmlogger/logger"):
+				bad++
+				c.Fail(rule, "std-descriptors("+P.FnKey(fn)+")", ins.Pos(), "refuted", full+" in the tee itself: a record file can be moved or removed while (or just after) it is opened for today's data")
 			case full == "(*os.File).Close":
 				a := ci.Common().Args
 				if len(a) > 0 && (isGlobalLoad(a[0], "os", "Stdin") || isGlobalLoad(a[0], "os", "Stdout")) {
